@@ -19,6 +19,11 @@ import PybropsModel.Lemmas.LabelMatGeno
 import PybropsModel.Lemmas.LabelMatUnphase
 import PybropsModel.Lemmas.LabelMatGood
 import PybropsModel.Lemmas.LabelMatBV
+import PybropsModel.Lemmas.LabelMatNOps
+import PybropsModel.Lemmas.LabelHeap
+import PybropsModel.Lemmas.LabelMatRepair
+import PybropsModel.Lemmas.LabelMatX
+import PybropsModel.Lemmas.LabelMatSpec
 import PybropsModel.Props.C15
 
 set_option autoImplicit false
@@ -621,5 +626,321 @@ example : (BVMat.Op.insertMany [0, 2] (.nd [[some 7, some 9], [some 8, some 10]]
     = true := rfl
 example : RectRaw (([[some 1, some 2], [none, some 4]], [5, 6]) : BVMat.Raw ℚ) := by
   intro c hc; simp at hc; rcases hc with rfl | rfl <;> rfl
+
+/-! ## 8. Square matrices with any number of taxa axes (three-way / four-way variance matrices)
+
+`DenseSquareTaxaTraitMatrix.square_taxa_axes = range(ndim - 1)`: ONE taxa bundle governs `r` data axes (r = 2 for
+coancestry-like and two-way variance matrices, 3 / 4 for the three-way / four-way variance matrices), the trait bundle
+the last axis.  Model: `Model/LabelMatN.lean` (`StN α lab r`, data = `r`-fold nested list of trait vectors); every
+theorem below is for ALL `r`, by induction on `r`. -/
+
+open LabelMatN in
+/-- **The source's loop over `square_taxa_axes` equals the closed form** (full): applying a list operation that does
+    not look at the elements (numpy.take / numpy.delete / fancy indexing) along axis 0, then axis 1, …, then axis
+    r - 1 is the operation applied at every nesting level — for every `r` and every array. -/
+theorem square_nd_loop_eq_closed_form {β : Type} {f : ListOp} (hf : Natural f) (r : Nat) (t : Tn β r) :
+    loopAll f r t = mapAll f r t :=
+  loopAll_eq_mapAll hf r t
+
+example : Natural (fun _ => Np.take [2, 0]) := natural_take [2, 0]
+
+/-- a 2 × 2 × 2 cube of one-trait leaves: the cell at (i, j, k) holds 100 i + 10 j + k -/
+def cube3 : LabelMatN.StN Int Int 3 :=
+  { mat := [[[[0], [1]], [[10], [11]]], [[[100], [101]], [[110], [111]]]],
+    taxa := { cols := [some [7, 8], some [2, 1]], grp := none },
+    trait := { cols := [some [50]], grp := none } }
+
+/-
+FULL STATEMENT (false of the as-is model for the NON-mutating methods, see
+`square_nd_pure_op_drops_trait_names_counterexample` (D27)):
+  for every number `r` of square taxa axes, every shape-consistent state and every finite history of select / delete /
+  remove / reorder / sort / group / ungroup along the taxa axes or the trait axis, the final state is shape-consistent
+  and every labelled cell of it (value + the taxa label tuple of EACH of its r taxa coordinates + its trait label) is
+  a labelled cell of the initial state.
+Hypothesis of the partial theorem: the non-mutating methods (select, delete) occur only for classes whose constructor
+call passes every label array on (`pureDropsOther = false`: the repaired code, patch_D27.diff); histories of the
+mutating operations alone (remove / reorder / sort / group / ungroup — what `reorder_taxa`, `sort_taxa`, `group_taxa`
+of a three-way / four-way variance matrix do) are covered unconditionally.
+-/
+
+open LabelMatN in
+/-- **Any number of taxa axes: histories of unary operations keep labels attached along EVERY taxa axis.** -/
+theorem square_nd_history_attached_partial {α lab : Type} [BEq lab] (le : lab → lab → Bool) (sch : SchN) (r : Nat)
+    (ops : List (UOp lab)) (hd : ∀ op ∈ ops, op.isPure = true → sch.pureDropsOther = false)
+    (s s' : StN α lab r) (hs : OKN s) (h : runU le sch ops s = .ok s') :
+    OKN s' ∧ ∀ c, IsLCellN s' c → IsLCellN s c :=
+  runU_attached le sch ops hd s s' hs h
+
+open LabelMatN in
+example : consistentN cube3 = true := by decide +kernel
+open LabelMatN in
+/-- reorder, group, remove on the three-axis cube: runs, and the cell that ends at (0,0,0) is the one labelled (8, 8, 8) -/
+example : ((runU leI {} [.reorder .taxa [1, 0], .group .taxa, .remove .taxa (.int (-1))] cube3).toOption.map
+    (fun s' => (s'.mat, s'.taxa.cols))) = some ([[[[111]]]], [some [8], some [1]]) := by decide +kernel
+
+open LabelMatN in
+/-- **spec_sound for the N-D shape oracle**: what the driver's Bool oracle `consistentN` accepts is shape-consistent in
+    the sense the theorems use (cube of one edge length, trait vectors of one length, label columns to match). -/
+theorem square_nd_consistent_spec_sound {α lab : Type} (r : Nat) (s : StN α lab r) (h : consistentN s = true) : OKN s :=
+  consistentN_ok s h
+
+open LabelMatN in
+/-- **spec_iff for the N-D attachment oracle**: the list of labelled cells the driver hashes is exactly the predicate
+    the theorems conclude. -/
+theorem square_nd_lcells_spec_iff {α lab : Type} (r : Nat) (s : StN α lab r) (c : LCellN α lab) :
+    c ∈ lcellsN s ↔ IsLCellN s c :=
+  mem_lcellsN_iff s c
+
+open LabelMatN in
+/-- **D27 on a three-way matrix.**  `select_taxa` (inherited from the taxa-only parent) returns an object without
+    trait names; the mutating `reorder_taxa` with the same indices keeps them. -/
+theorem square_nd_pure_op_drops_trait_names_counterexample :
+    ((selectN {} .taxa [1, 0] cube3).toOption.map (fun s' => s'.trait.cols),
+     (reorderN .taxa [1, 0] cube3).toOption.map (fun s' => s'.trait.cols)) = (some [none], some [some [50]]) := by
+  decide +kernel
+
+open LabelMatN in
+/-- **group_partition for any number of taxa axes** (full): if `group_taxa` of a square matrix succeeds and the result
+    reports itself grouped, the cached metadata are a true contiguous partition of the current taxa-group column,
+    names strictly increasing, no empty block. -/
+theorem square_nd_group_partition {α lab : Type} [LinearOrder lab] (r : Nat) (s s' : StN α lab r)
+    (h : groupN (fun a b : lab => decide (a ≤ b)) .taxa s = .ok s') (g : Grp lab) (hg : s'.taxa.grp = some g) :
+    ∃ col, (s'.taxa.cols[1]?).join = some col ∧
+      partitionOK g col = true ∧ g.name.Pairwise (· < ·) ∧ (∀ n ∈ g.len, 0 < n) :=
+  groupN_partition h g hg
+
+open LabelMatN in
+example : ((groupN leI .taxa cube3).toOption.map (fun s' => s'.taxa.grp))
+    = some (some { name := [1, 2], stix := [0, 1], spix := [1, 2], len := [1, 1] }) := by decide +kernel
+
+open LabelMatN in
+/-- **grouped_invariant for any number of taxa axes** (full): "reported grouped ⇒ true partition" survives every
+    history of unary operations (pure or mutating, with or without defect D27). -/
+theorem square_nd_grouped_invariant {α lab : Type} [LinearOrder lab] (sch : SchN) (r : Nat) (ops : List (UOp lab))
+    (s s' : StN α lab r) (h0 : groupedN s = true)
+    (h : runU (fun a b : lab => decide (a ≤ b)) sch ops s = .ok s') : groupedN s' = true :=
+  runU_grouped sch ops s s' h0 h
+
+open LabelMatN in
+example : groupedN cube3 = true := by decide
+
+/-! ## 9. Several live objects that share label arrays (heap / aliasing model, `Model/LabelHeap.lean`)
+
+The non-mutating methods hand the receiver's arrays of every bundle they do not edit to the new object BY REFERENCE;
+the mutating methods rebind fields to new arrays and never write into an existing one.  `hrun` executes a history of
+(receiver index, operation) pairs over a heap of arrays with exactly this sharing; `vrun` is the reference semantics
+in which every object is an independent value. -/
+
+open LabelHeap in
+/-- **Histories over several live objects: sharing is unobservable** (full over the modelled operations).  Whatever
+    label arrays the live objects share, after any finite history every live object denotes exactly the value the
+    sharing-free functional model computes for it, and the heap only grew (no array was overwritten). -/
+theorem shared_arrays_history_refines_values {α lab : Type} [BEq lab] [DecidableEq lab] [DecidableEq α]
+    (le : lab → lab → Bool) (sch : Schema) (fill : α) (ops : List (Nat × Op α lab)) (h h' : Heap α lab)
+    (objs objs' : List Obj) (vs : List (St α lab)) (d : Denotes h objs vs)
+    (hs : hrun le sch fill ops (h, objs) = some (h', objs')) :
+    Ext h h' ∧ ∃ vs', vrun le sch fill ops vs = some vs' ∧ Denotes h' objs' vs' :=
+  hrun_refines le sch fill ops h h' objs objs' vs d hs
+
+open LabelHeap in
+/-- **An operation leaves every other live object unchanged** (and a non-mutating one its receiver too): if object `j`
+    is not the receiver of a mutating operation, it denotes after the step what it denoted before — although the
+    step's result may share label arrays with it. -/
+theorem operation_leaves_other_objects_unchanged {α lab : Type} [BEq lab] [DecidableEq lab] [DecidableEq α]
+    (le : lab → lab → Bool) (sch : Schema) (fill : α) (i : Nat) (op : Op α lab) (h h' : Heap α lab)
+    (objs objs' : List Obj) (vs : List (St α lab)) (d : Denotes h objs vs)
+    (hs : hstep le sch fill i op (h, objs) = some (h', objs')) (j : Nat) (o : Obj) (ho : objs[j]? = some o)
+    (hne : LabelHeap.Op.isPure op = true ∨ j ≠ i) :
+    ∃ o', objs'[j]? = some o' ∧ view h' o' = view h o := by
+  obtain ⟨_, vs', hv, d'⟩ := hstep_refines le sch fill i op h h' objs objs' vs d hs
+  obtain ⟨s, hs1, hview⟩ := d.get j o ho
+  have hj : j < vs.length := (List.getElem?_eq_some_iff.mp hs1).1
+  have hkeep := vstep_others le sch fill i op vs vs' hv j hj hne
+  have hlen' : objs'.length = vs'.length := List.Forall₂.length_eq d'
+  have hj' : j < vs'.length := by
+    have : vs'[j]? = some s := by rw [hkeep, hs1]
+    exact (List.getElem?_eq_some_iff.mp this).1
+  have hjo : j < objs'.length := by rw [hlen']; exact hj'
+  refine ⟨objs'[j], by simp [hjo], ?_⟩
+  obtain ⟨s2, hs2, hview2⟩ := d'.get j objs'[j] (by simp [hjo])
+  rw [hview2, hview, ← hs2, hkeep, hs1]
+
+open LabelHeap in
+/-- a heap with the object of `sPhased` -/
+def heap0 : Heap Int Int × List Obj :=
+  let r := storeFresh ([] : Heap Int Int) sPhased
+  (r.1, [r.2])
+
+open LabelHeap in
+example : views heap0 = some [sPhased] := by decide +kernel
+
+open LabelHeap in
+/-- `B = A.select_vrnt([1, 0])`, then `B.reorder_taxa([3, 2, 1, 0])`: B's taxa columns are A's arrays (same
+    addresses) after the first step; after the second A still denotes `sPhased` -/
+example : ((hrun leI schPhased 0 [(0, .select .vrnt [1, 0])] heap0).map
+      (fun hp => (hp.2.map (fun o => o.taxa.cols)))) = some [[some 1, some 2], [some 1, some 2]] := by decide +kernel
+open LabelHeap in
+example : ((hrun leI schPhased 0 [(0, .select .vrnt [1, 0]), (1, .reorder .taxa [3, 2, 1, 0])] heap0).bind
+      (fun hp => (hp.2[0]?).bind (view hp.1))) = some sPhased := by decide +kernel
+
+open LabelHeap in
+/-- **Why the discipline matters** (the variant the code does NOT implement): with `reorder_taxa` writing the permuted
+    labels into the existing arrays, the same two steps leave A with its data untouched and its taxon names reversed —
+    A's rows no longer carry the taxa they were created with. -/
+example : (((hstep leI schPhased 0 0 (.select .vrnt [1, 0]) heap0).bind
+      (hstepInPlace leI schPhased 0 1 (.reorder .taxa [3, 2, 1, 0]))).bind
+      (fun hp => ((hp.2[0]?).bind (view hp.1)).map (fun s => (s.mat == sPhased.mat, s.taxa.cols))))
+    = some (true, [some [103, 102, 101, 100], some [1, 2, 1, 2]]) := by decide +kernel
+
+/-! ## 10. The two recorded defects: proposed repairs and what is proved of the repaired model
+
+**D27** (`DenseSquareTaxaTraitMatrix` inherits the axis-specific non-mutating methods of its single-bundle parents,
+which drop the other bundle's labels): `patch_D27.diff` adds the ten overrides that hand the other bundle's arrays to
+the new object, exactly as `DenseTaxaTraitMatrix` does.  The repaired model is the schema with `pureDropsOther = false`,
+for which the statements are the theorems above whose hypothesis is `pureDropsOther = false` / `sch.Good`
+(`square_unary_op_attached_partial`, `operand_op_attached_partial`, `history_preserves_entities_partial`,
+`mutating_eq_pure_partial`, and `square_nd_history_attached_partial` for three / four taxa axes).
+
+**D14** (square `insert_taxa` / `incorp_taxa` / `concat_taxa` edit the first taxa axis only).  Cannot be repaired
+without an API decision: the present methods take a block of *rows* (q × n …), which can never yield a square result —
+the source itself carries `# TODO: # FIXME: figure out insertion logic`.  `patch_D14.diff` proposes the one reading that
+needs no new information: `values` is the q × … × q block of the new taxa among themselves (as for `adjoin_taxa`), the
+block is adjoined and the new entries are then moved to their position along every taxa axis by the permutation
+`numpy.insert(arange(n), obj, arange(n, n + q))`.  That is a *history of already-correct operations*, so: -/
+
+/-
+FULL STATEMENT (of the repaired model; the hypotheses below are those of `history_preserves_entities_partial`: an
+admissible class, operands that fit the state they meet, no empty dimension):
+  the repaired `insert_taxa(p, block)` returns a square matrix all of whose labelled cells are labelled cells of the
+  receiver or of the block, or cross-block fill cells.
+-/
+
+/-- **D14 repaired: the proposed `insert_taxa` of the square classes meets the history statement** — the result is
+    shape-consistent (square) and every labelled cell of it is a labelled cell of the receiver, of the operand block, or
+    a cross-block fill cell. -/
+theorem square_insert_repaired_attached_partial {α lab : Type} [BEq lab] (le : lab → lab → Bool) (sch : Schema) (hg : sch.Good)
+    (fill : α) (k : Kind) (n q p : Nat) (v : Operand α lab) (s s' : St α lab) (hcons : consistentOK sch s = true)
+    (hv : ValidHist4 le sch fill true (squareInsertRepaired k n q p v) s)
+    (h : run le sch fill true (squareInsertRepaired k n q p v) s = .ok s') :
+    consistentOK sch s' = true ∧
+      ∀ c, IsLCell sch s' c → IsLCell sch s c ∨ IsLCell sch (operandState s k v) c ∨ c.val = fill := by
+  obtain ⟨hc, hatt⟩ := run_attached4 le sch hg fill true _ s s' hcons hv h
+  refine ⟨hc, fun c hcell => ?_⟩
+  rcases hatt c hcell with h1 | h1 | h1
+  · exact Or.inl h1
+  · simp only [squareInsertRepaired, Sources.SourcesTail, Op.operands, List.mem_singleton, exists_eq_left, Op.kind,
+      List.not_mem_nil, false_and, exists_false, or_false, and_false, false_or] at h1
+    exact Or.inr (Or.inl h1)
+  · exact Or.inr (Or.inr h1)
+
+/-- **… and the new entries land where numpy.insert would put them**: the permutation of the patch applied to an
+    adjoined label column `l ++ lv` is `numpy.insert(l, p, lv)` (every label column, every position `p ≤ n`). -/
+theorem square_insert_repaired_position {β : Type} (l lv : List β) (p : Nat) (hp : p ≤ l.length) :
+    Np.take (insertPerm l.length lv.length p) (l ++ lv) = Np.insert p lv l :=
+  take_insertPerm l lv p hp
+
+/-- a 1 × 1 block inserted before position 1 of the 3 × 3 square matrix with the repaired method: 4 × 4, consistent,
+    names in numpy.insert order, the 6 cross cells hold the fill value -/
+def sqRepairedOut : Option (St Int Int) :=
+  (run leI schSquare (-99 : Int) true
+    (squareInsertRepaired .taxa 3 1 1 { mat := [[[(70 : Int)]]], cols := [some [170], some [5]] }) sSquare).toOption
+
+example : sqRepairedOut.map (fun s' => (shape3 s'.mat, consistentOK schSquare s',
+      ((lcells schSquare s').filter (fun c => c.val == (-99 : Int))).length)) = some ((4, 4, 1), true, 6) := by
+  decide +kernel
+example : sqRepairedOut.map (fun s' => (s'.bundle .taxa).cols)
+    = some [some [100, 170, 101, 102], some [1, 5, 2, 1]] := by decide +kernel
+
+/-! ## 11. Every position form of numpy.insert (boolean masks, unsorted index lists: `Model/LabelMatX.lean`)
+
+numpy sorts unsorted positions stably and moves the values along; a boolean ndarray stands for `flatnonzero`.  Both
+forms are the sorted-list insertion of a PERMUTED operand, on the data block and on every label array alike. -/
+
+/-
+FULL STATEMENT (not proved for the square classes, whose insert / incorp are defect D14):
+  for every class, `insert_<k>(obj, values, …)` and `incorp_<k>(obj, values, …)` with `obj` an integer, a slice, an
+  index list in any order or a boolean mask leave a state whose labelled cells are labelled cells of the receiver or
+  of the operand block as it was passed.
+Hypotheses of the partial theorem: `sch.Good`, the bundle governs one axis, receiver and operand block are
+shape-consistent with no empty dimension (also after the operand has been permuted).
+-/
+
+/-- **insert / incorp keep labels attached for EVERY position form** — integer, slice, list in any order, boolean mask. -/
+theorem insert_any_position_form_attached_partial {α lab : Type} [BEq lab] (le : lab → lab → Bool) (sch : Schema)
+    (hg : sch.Good) (fill : α) (k : Kind) (a : Nat) (hax : sch.axes k = [a]) (mutating : Bool) (o : InsIdxX)
+    (v : Operand α lab) (s s' : St α lab) (hcons : consistentOK sch s = true)
+    (hcv : consistentOK sch (operandState s k v) = true) (hlen : (s.bundle k).cols.length = v.cols.length)
+    (hp : PosDims s.mat) (hpv : PosDims v.mat) (hpp : ∀ perm, PosDims (permuteOperand sch k perm v).mat)
+    (h : (if mutating then incorpXK sch k o v s else insertXK sch k o v s) = .ok s')
+    (c : LCell α lab) (hc : IsLCell sch s' c) : IsLCell sch s c ∨ IsLCell sch (operandState s k v) c :=
+  insertXK_attached le sch hg fill k a hax mutating o v s s' hcons hcv hlen hp hpv hpp h c hc
+
+/-- positions `[3, 1]` (unsorted): taxon 150 lands before original row 3 and taxon 151 before original row 1 — the
+    names AND the data rows (50.. / 52..) move together -/
+example : ((insertXK schPhased .taxa (.anyList [3, 1]) opTaxa sPhased).toOption.map
+      (fun s' => ((s'.bundle .taxa).cols.head?, s'.mat.head?)))
+    = some (some (some [100, 151, 101, 102, 150, 103]),
+            some [[0, 1], [52, 53], [2, 3], [4, 5], [50, 51], [6, 7]]) := by decide +kernel
+/-- the same two positions as a boolean mask `[F, T, F, T]` (ascending: 150 before row 1, 151 before row 3) -/
+example : ((insertXK schPhased .taxa (.mask [false, true, false, true]) opTaxa sPhased).toOption.map
+      (fun s' => (s'.bundle .taxa).cols.head?)) = some (some (some [100, 150, 101, 102, 151, 103])) := by decide +kernel
+example : consistentOK schPhased (operandState sPhased .taxa opTaxa) = true := by decide +kernel
+
+/-! ## 12. The Bool oracles the driver evaluates on the implementation's states = the Props of the theorems
+
+`c03.spec_step` / `c03.nd_spec` evaluate `consistentOK` (S1), membership in `lcells` (S2) and `groupedOK` → `partitionOK`
+(S4) on the states read back from pybrops.  Each is tied to the Prop the theorems above conclude (for the N-D oracles see
+`square_nd_consistent_spec_sound`, `square_nd_lcells_spec_iff`); that the MODEL's outputs satisfy them is
+`history_preserves_entities_partial` (S1, S2), `grouped_invariant` / `group_partition` (S4). -/
+
+/-- **spec_iff, partition oracle**: `partitionOK g col` holds exactly when the metadata describe a true contiguous
+    partition — as many names as blocks, block `i` = `[stix i, spix i)` with `stix 0 = 0`, `spix i = stix i + len i =
+    stix (i+1)`, names pairwise different, and the column is `name 0` × `len 0`, `name 1` × `len 1`, … to its end. -/
+theorem spec_partition_iff {lab : Type} [DecidableEq lab] (g : Grp lab) (col : List lab) :
+    partitionOK g col = true ↔ IsPartition g col :=
+  partitionOK_iff g col
+
+example : IsPartition ({ name := [1, 2], stix := [0, 2], spix := [2, 3], len := [2, 1] } : Grp Int) [1, 1, 2] :=
+  (spec_partition_iff _ _).mp (by decide)
+
+/-- **spec_iff, shape oracle**: `consistentOK` holds exactly when the data are rectangular, every present label column
+    is as long as each axis it labels, and the axes governed by one bundle are equally long. -/
+theorem spec_consistent_iff {α lab : Type} (sch : Schema) (s : St α lab) : consistentOK sch s = true ↔ Cons sch s :=
+  cons_iff sch s
+
+/-- **spec_iff, attachment oracle**: the executable list of labelled cells is the predicate `IsLCell` of the theorems. -/
+theorem spec_lcells_iff {α lab : Type} (sch : Schema) (s : St α lab) (hr : rect s.mat = true) (c : LCell α lab) :
+    c ∈ lcells sch s ↔ IsLCell sch s c :=
+  mem_lcells_iff sch s hr c
+
+/-- **spec_sound, grouping oracle**: if `groupedOK` accepts a state, every labelled bundle that reports itself grouped
+    has a group column and its metadata are a true contiguous partition of that column. -/
+theorem spec_grouped_sound {α lab : Type} [DecidableEq lab] (sch : Schema) (s : St α lab) (h : groupedOK sch s = true)
+    (k : Kind) (hk : k = .taxa ∨ k = .vrnt) (hax : sch.axes k ≠ []) (g : Grp lab) (hg : (s.bundle k).grp = some g) :
+    ∃ c col, k.grpCol = some c ∧ ((s.bundle k).cols[c]?).join = some col ∧ IsPartition g col := by
+  have hk' : grpOKk sch s k = true := by
+    rw [groupedOK_iff] at h
+    rcases hk with rfl | rfl
+    · exact h.1
+    · exact h.2
+  unfold grpOKk at hk'
+  have hne : (sch.axes k).isEmpty = false := by
+    cases hl : sch.axes k with
+    | nil => exact absurd hl hax
+    | cons a as => rfl
+  rw [hne, hg] at hk'
+  simp only [Bool.false_or] at hk'
+  cases hc : k.grpCol with
+  | none => rw [hc] at hk'; cases hk'
+  | some c =>
+    rw [hc] at hk'
+    simp only at hk'
+    cases hcol : ((s.bundle k).cols[c]?).join with
+    | none => rw [hcol] at hk'; cases hk'
+    | some col =>
+      rw [hcol] at hk'
+      exact ⟨c, col, rfl, hcol, (partitionOK_iff g col).mp hk'⟩
+
+example : groupedOK schPhased sGrouped = true := by decide
 
 end C03
